@@ -279,3 +279,32 @@ Proof.
   unfold optq_eqb in E. destruct (dual_entry cube n _ _) as [q|]; [|discriminate].
   exists q. split; [reflexivity | now apply Qeq_bool_eq].
 Qed.
+
+(* ---- the defining functionals of the global family agree with their names, layout and doflocs ---- *)
+Lemma qs_eqb_sound a : forall b, qs_eqb a b = true -> Forall2 Qeq a b.
+Proof.
+  induction a as [|x a IH]; intros [|y b] H; simpl in H; try discriminate; constructor.
+  - apply andb_true_iff in H. now apply Qeq_bool_eq.
+  - apply andb_true_iff in H. now apply IH.
+Qed.
+
+Definition gdof_spec (g : gelem) : Prop :=
+  g_got g <> [] /\
+  Forall2 (fun a b : gdof_entry => fst a = fst b /\ Forall2 Qeq (snd a) (snd b)) (g_got g) (g_want g) /\
+  Forall2 (fun (w : gdof_entry) x => Forall2 Qeq (comb_point (g_dim g) (g_refp g) (snd w)) x) (g_want g) (g_doflocs g).
+
+Theorem gdof_ok_sound g : gdof_ok g = true -> gdof_spec g.
+Proof.
+  unfold gdof_ok. intros H. apply andb_true_iff in H. destruct H as [H Hl].
+  apply andb_true_iff in H. destruct H as [Hne He]. split; [|split].
+  - destruct (g_got g); [discriminate | discriminate].
+  - clear Hne Hl. revert He. generalize (g_got g) (g_want g). intros a.
+    induction a as [|x a IH]; intros [|y b] H; simpl in H; try discriminate; constructor.
+    + apply andb_true_iff in H. destruct H as [H _]. unfold gdof_eqb in H. apply andb_true_iff in H. destruct H as [H1 H2].
+      split; [now apply String.eqb_eq | now apply qs_eqb_sound].
+    + apply andb_true_iff in H. now apply IH.
+  - clear Hne He. revert Hl. generalize (g_want g) (g_doflocs g). intros a.
+    induction a as [|x a IH]; intros [|y b] H; simpl in H; try discriminate; constructor.
+    + apply andb_true_iff in H. destruct H as [H _]. now apply qs_eqb_sound.
+    + apply andb_true_iff in H. now apply IH.
+Qed.
